@@ -167,6 +167,24 @@ async fn run_storm(a: &Args, m: &mut mon::Mon) {
                                                 m.r.count("C16.liquidations_by_holder_of_a_third_bank_only");
                                                 break;
                                             }
+                                            // the same call with the liquidator's observation accounts in
+                                            // the order in which the positions are appended (held bank,
+                                            // debt bank, collateral bank) instead of the sorted order
+                                            let mut rem = w.mint_prefix(db);
+                                            let mut lq_acc = w.bank_risk_metas(*p3);
+                                            lq_acc.extend(w.bank_risk_metas(db));
+                                            lq_acc.extend(w.bank_risk_metas(ca));
+                                            let le_acc = w.risk_metas(lev.acct, None, None);
+                                            let (n_le, n_lq) = (le_acc.len() as u8, lq_acc.len() as u8);
+                                            rem.extend(lq_acc);
+                                            rem.extend(le_acc);
+                                            let gk5 = w.groups[g].key;
+                                            let i = ix::liquidate(gk5, w.banks[ca].key, w.banks[db].key, w.accts[lq5].key, lk.pubkey(), w.accts[lev.acct].key, w.token_program_of_bank(db), amt, n_le, n_lq, rem);
+                                            let o = w.exec(m, &[i], &[&lk]).await;
+                                            m.r.count(if o.ok() { "C16.liquidations_with_observation_accounts_in_append_order_accepted" } else { "C16.liquidations_with_observation_accounts_in_append_order_refused" });
+                                            if o.ok() {
+                                                break;
+                                            }
                                         }
                                     }
                                 }
